@@ -19,16 +19,45 @@ def github_issue(u):
     return u.startswith("https://github.com") and "issues" in u
 
 
+def considered_uri(converter, u, ds):
+    """u is learned from: not recognised by the supplied converter, not a GitHub issue link, and splittable."""
+    return not (converter is not None and uri_hit(converter, u)) and not github_issue(u) and disc_split(u, ds) is not None
+
+
 @contract("discovery._get_uri_prefix_to_luids", props=["C19", "C10"], returns="dict[str,set[str]]")
 def c_get_uri_prefix_to_luids(converter: "Converter|None", uris: list[str], delimiters: "list[str]|None"):
     requires(converter is None or WF(converter))
     requires(all(d != "" for d in (delimiters or [])))
     pure()
     ds = delimiters or DEFAULT_DELIMS
-    considered = [u for u in uris if not (converter is not None and converter.is_uri(u)) and not github_issue(u) and disc_split(u, ds) is not None]
-    ensures(all(any(disc_split(u, ds)[0] == k for u in considered) for k in result))
-    ensures(all(disc_split(u, ds)[0] in result and disc_split(u, ds)[1] in result[disc_split(u, ds)[0]] for u in considered))
-    ensures(all(any(disc_split(u, ds) == (k, luid) for u in considered) for k in result for luid in result[k]))
+    # stated over MEMBERSHIP in `uris` only: order and repetition of the input cannot matter
+    ensures(all(any(considered_uri(converter, u, ds) and disc_split(u, ds)[0] == k for u in uris) for k in result))
+    ensures(all(disc_split(u, ds)[0] in result and disc_split(u, ds)[1] in result[disc_split(u, ds)[0]]
+                for u in uris if considered_uri(converter, u, ds)))
+    ensures(all(any(considered_uri(converter, u, ds) and disc_split(u, ds)[0] == k and disc_split(u, ds)[1] == luid for u in uris)
+                for k in result for luid in result[k]))
+
+
+@invariant("discovery._get_uri_prefix_to_luids", loop=0)
+def inv_luids0(converter, delimiters, uri_prefix_to_luids: dict[str, set[str]], _i, _xs):
+    return (all(any(considered_uri(converter, u, delimiters) and disc_split(u, delimiters)[0] == k for u in _xs[:_i]) for k in uri_prefix_to_luids)
+            and all(disc_split(u, delimiters)[0] in uri_prefix_to_luids
+                    and disc_split(u, delimiters)[1] in uri_prefix_to_luids[disc_split(u, delimiters)[0]]
+                    for u in _xs[:_i] if considered_uri(converter, u, delimiters))
+            and all(any(considered_uri(converter, u, delimiters) and disc_split(u, delimiters)[0] == k and disc_split(u, delimiters)[1] == luid
+                        for u in _xs[:_i]) for k in uri_prefix_to_luids for luid in uri_prefix_to_luids[k]))
+
+
+@invariant("discovery._get_uri_prefix_to_luids", loop=1)
+def inv_luids1(converter, delimiters, uri, uri_prefix_to_luids: dict[str, set[str]], _i, _xs, _outer_i, _outer_xs):
+    return (all(any(considered_uri(converter, u, delimiters) and disc_split(u, delimiters)[0] == k for u in _outer_xs[:_outer_i]) for k in uri_prefix_to_luids)
+            and all(disc_split(u, delimiters)[0] in uri_prefix_to_luids
+                    and disc_split(u, delimiters)[1] in uri_prefix_to_luids[disc_split(u, delimiters)[0]]
+                    for u in _outer_xs[:_outer_i] if considered_uri(converter, u, delimiters))
+            and all(any(considered_uri(converter, u, delimiters) and disc_split(u, delimiters)[0] == k and disc_split(u, delimiters)[1] == luid
+                        for u in _outer_xs[:_outer_i]) for k in uri_prefix_to_luids for luid in uri_prefix_to_luids[k])
+            # no earlier delimiter (in priority order) splits this URI
+            and all(not (d in uri and uri.rsplit(d, 1)[1].isalnum()) for d in _xs[:_i]))
 
 
 @contract("discovery.discover", props=["C19", "C10"], returns="Converter")
